@@ -43,11 +43,12 @@ def bounds(tier):
     }
 
 
-def compare_final(e, s1, s5, tag="", mem5=None):
+def compare_final(e, s1, s5, tag="", mem5=None, mem1=None):
     """claims on the final states of a single-cycle run s1 and a five-stage run s5
     (mem5: the data-memory contents of s5 as a function of the address, default: its flat memory)"""
     c1, c5 = s1.ctx, s5.ctx
     mem5 = mem5 or c5.mem_byte
+    mem1 = mem1 or c1.mem_byte
     st1, st5 = c1.sim.state, c5.sim.state
     q = e.int("q", 0, 31)
     qa = e.int("qa", 0, 2**32 - 1)
@@ -55,7 +56,7 @@ def compare_final(e, s1, s5, tag="", mem5=None):
     e.observe("retired5", s5.retired)
     e.observe("fault", [s1.fault is not None, s5.fault is not None])
     e.observe("reg[q]", [c1.reg(q), c5.reg(q)])
-    e.observe("mem[qa]", [c1.mem_byte(qa), mem5(qa)])
+    e.observe("mem[qa]", [mem1(qa), mem5(qa)])
     e.observe("output", [st1.output, st5.output])
     e.observe("exit", [st1.exit_code, st5.exit_code])
     e.claim("terminates-when-single-cycle-does", not s5.nonterminating, {"cycles": s5.steps})
@@ -68,7 +69,7 @@ def compare_final(e, s1, s5, tag="", mem5=None):
     c1.check_cell_types(e)
     c5.check_cell_types(e)
     e.claim_eq("registers", c5.reg(q), c1.reg(q))
-    e.claim_eq("memory", mem5(qa), c1.mem_byte(qa))
+    e.claim_eq("memory", mem5(qa), mem1(qa))
     e.claim_eq("output", st5.output, st1.output)
     e.claim_eq("exit_code", st5.exit_code, st1.exit_code)
     if s1.fault is None and s5.fault is None:
@@ -97,7 +98,13 @@ def h_prog(e, mnems, K=None):
     compare_final(e, s1, s5)
 
 
-HARNESSES = {"prog": h_prog}
+def h_prog_cached(e, **kw):
+    from checks import cachestep
+
+    return cachestep.h_prog_dcache(e, **kw)
+
+
+HARNESSES = {"prog_cached": h_prog_cached, "prog": h_prog}
 
 
 def heavy(sk, strict=False):
@@ -123,6 +130,13 @@ def l3job(sk, optional):
 def jobs(tier, seed):
     out = []
     from checks.c01 import MNEMONICS
+    from checks import cachestep
+
+    # the same equivalence with a data cache in both simulations (memory compared as the program sees it)
+    for first in ("lw", "sw"):
+        for st_ in ("sb", "sh", "sw", "lh"):
+            for cfg in cachestep.DCFG[:2]:
+                out.append({"label": "cached:%s,%s-%s" % (first, st_, "".join(map(str, cfg))), "harness": "prog_cached", "args": {"mnems": [first, st_], "cfg": list(cfg), "props": ["C02"]}, "cost": 20, "validate_every": 3, "timeout_ms": 10000, "cut_on_undecided": True})
 
     for m in MNEMONICS:
         out.append({"label": "one:" + m, "harness": "prog", "args": {"mnems": [m]}, "cost": 2})
